@@ -1,6 +1,7 @@
 // c08.cpp — every exact entry point that needs no MPI, on ONE weighted graph per case; prints each returned value exactly.
-//   M <D|I> <scale> <algs> <graph>
-//       D = double weights w*2^scale (returned values printed in units of 2^scale), I = int weights (scale ignored)
+//   M <D|I|L> <scale> <algs> <graph>
+//       D = double weights w*2^scale (returned values printed in units of 2^scale), I = int weights (scale ignored),
+//       L = long long weights (64-bit integers, values above 2^53 included; scale ignored)
 //       algs = '+'-separated subset of signed,fvs,iso,signed_tbb,fvs_tbb,iso_tbb  or  all
 //   prints  for each algorithm run, in the order given:  <alg> RET <value> N <#cycles> SUM <sum of the weights of all emitted edges>
 // The *_tbb entry points run on the real oneTBB scheduler (4 worker threads), i.e. under whatever schedule happens.
@@ -43,6 +44,9 @@ int main() {
         std::vector<std::string> algs;
         if (al == "all") algs = {"signed", "fvs", "iso", "signed_tbb", "fvs_tbb", "iso_tbb"};
         else { std::stringstream ss(al); std::string a; while (std::getline(ss, a, '+')) algs.push_back(a); }
-        if (ty == "D") run_all<DGraph>(algs, t, scale, out); else run_all<IGraph>(algs, t, 0, out);
+        if (ty == "D") run_all<DGraph>(algs, t, scale, out);
+        else if (ty == "L") run_all<LGraph>(algs, t, 0, out);
+        else if (ty == "I") run_all<IGraph>(algs, t, 0, out);
+        else throw std::runtime_error("bad weight type");
     });
 }
